@@ -115,14 +115,14 @@ def case_to_replay(events):
             "reinit": 0, "chk": 0, "calls": calls}
 
 
-def extract_pinned(src, dst):
-    """Copy the cases of the pinned reproducers (init id >= PINNED_MIN_ID) out of the G trace; returns their number."""
+def extract_pinned(src, dst, skip):
+    """Copy the cases of the pinned reproducers (init id >= PINNED_MIN_ID, not in skip) out of the G trace; returns their number."""
     n, keep = 0, False
     with open(src) as f, open(dst, "w") as o:
         for line in f:
             e = json.loads(line)
             if e["k"] == "init":
-                keep = e["id"] >= PINNED_MIN_ID
+                keep = e["id"] >= PINNED_MIN_ID and (e["id"], e["seed"]) not in skip
                 n += keep
             if keep:
                 o.write(line)
@@ -173,7 +173,7 @@ def validate(ctx, name, path, open_devs, findings):
     """Strict pass first.  A mismatch that is exactly an open named deviation (diagnosis tagged Dev_<name>, name recorded in
     known_findings.json) is reported as KNOWN-FINDING and the trace is validated again with that deviation accepted, until
     no further open deviation shows up.  Returns the genuine mismatches of the last pass."""
-    par = getattr(ctx, "c19_par", None) or (3 if ctx.quick else 16)
+    par = 3 if ctx.quick else 16
     enabled = set()
     while True:
         env = {v: ("1" if k in enabled else "0") for k, v in DEVS.items()}
@@ -253,16 +253,20 @@ def run(ctx):
         account(ctx, name, path)
         if trunc and not bad:
             raise vlib.Broken("harness stopped after calls that did not return but the monitor reported nothing (%s)" % name)
+    done_pinned = set()
     if total_bad:
         # a chunk of cases stops at its first mismatch; on a defective tree judge every pinned reproducer on its own so that
         # each documented defect is reported with its replay file
         pin = os.path.join(ctx.work, "trace_pinned.ndjson")
-        n_pin = extract_pinned(tr_g, pin)
-        if n_pin:
-            par_save, ctx.c19_par = getattr(ctx, "c19_par", None), n_pin
-            bad = validate(ctx, "G-pinned", pin, open_devs, findings)
-            ctx.c19_par = par_save
+        for rnd in range(6):
+            if not extract_pinned(tr_g, pin, done_pinned):
+                break
+            bad = validate(ctx, "G-pinned%d" % rnd, pin, open_devs, findings)
+            if not bad:
+                break
             report(ctx, "G-pinned", bad, seen)
+            for m in bad:
+                done_pinned.add((m["case_events"][0]["id"], m["case_events"][0]["seed"]))
     ctx.cov["exhaustive"] = (not trunc_g) and total_bad == 0
     ctx.cov["explanation"] = ("exhaustive = every geometry and every Write/Fill/Scroll argument combination of this tier's TLC scope "
                               "(%d geometries, %d calls) was replayed on the real drivers and accepted by the monitor; the scope of the quick tier "
